@@ -217,3 +217,167 @@ def with_asan_slice(gen, every, name="asan"):
             d = dict(c)
             d["group"] = name
             yield d
+
+
+# ---------------------------------------------------------------------------------------------------------------------
+# appended for the widening pass of C05/C07/C09/C10 (argument containers, derived trajectories, cell histories)
+INDEX_STYLES = ["int64", "int32", "list", "tuple", "noncontig", "fortran", "intp-sliced", "int16"]
+
+
+def index_arg(a, style):
+    """The same index table `a` (ndarray of ints, 1-d or 2-d) handed over in another container / dtype / memory layout."""
+    a = np.asarray(a)
+    if style == "int64":
+        return a.astype(np.int64)
+    if style == "int32":
+        return a.astype(np.int32)
+    if style == "int16":
+        return a.astype(np.int16) if (a.size == 0 or a.max() < 2 ** 15) else a.astype(np.int64)
+    if style == "list":
+        return a.tolist()
+    if style == "tuple":
+        return tuple(tuple(int(x) for x in r) for r in a) if a.ndim == 2 else tuple(int(x) for x in a)
+    if style == "noncontig":  # every other column / element of a wider array
+        if a.ndim == 2:
+            big = np.full((len(a), 2 * a.shape[1]), -7, dtype=np.int64)
+            big[:, ::2] = a
+            return big[:, ::2]
+        big = np.full(2 * len(a), -7, dtype=np.int64)
+        big[::2] = a
+        return big[::2]
+    if style == "fortran":
+        return np.asfortranarray(a.astype(np.int32)) if a.ndim == 2 else a.astype(np.int32)[::-1][::-1]
+    if style == "intp-sliced":  # rows taken out of the middle of a longer table (a view with an offset)
+        pad = np.full((3,) + a.shape[1:], 0, dtype=np.intp)
+        big = np.concatenate([pad, a.astype(np.intp), pad])
+        return big[3:3 + len(a)]
+    raise ValueError(style)
+
+
+DERIVED = ["none", "slice", "slice-nocopy", "stride", "stride-nocopy", "atom_slice", "join", "xyz64", "vectors", "fancy"]
+
+
+def derive_traj(t, mode, rng):
+    """A trajectory with the same frames, atoms and cells as `t`, but obtained the way users obtain trajectories: cut out
+    of a longer one (copying or not), every other frame of an interleaved one, an atom subset of a bigger system, pieces
+    joined, float64 coordinates assigned, the cell assigned as box vectors.  The caller judges the RETURNED object by its
+    own xyz / unitcell_vectors."""
+    import mdtraj as md
+    if mode == "none":
+        return t
+    nf = t.n_frames
+    junk = t.slice(range(nf), copy=True)
+    junk.xyz = (junk.xyz[::-1] * np.float32(1.25) + np.float32(0.37)).astype(np.float32)
+    if t.unitcell_lengths is not None:
+        junk.unitcell_lengths = (t.unitcell_lengths[::-1] * 1.5).astype(np.float32)
+        junk.unitcell_angles = t.unitcell_angles[::-1].copy()
+    if mode in ("slice", "slice-nocopy"):
+        big = junk.join(t, check_topology=False).join(junk, check_topology=False)
+        return big.slice(slice(nf, 2 * nf), copy=(mode == "slice"))
+    if mode in ("stride", "stride-nocopy", "fancy"):
+        xyz = np.empty((2 * nf,) + t.xyz.shape[1:], np.float32)
+        xyz[::2], xyz[1::2] = t.xyz, junk.xyz
+        big = md.Trajectory(xyz, t.topology)
+        if t.unitcell_lengths is not None:
+            L = np.empty((2 * nf, 3), np.float32)
+            A = np.empty((2 * nf, 3), np.float32)
+            L[::2], L[1::2] = t.unitcell_lengths, junk.unitcell_lengths
+            A[::2], A[1::2] = t.unitcell_angles, junk.unitcell_angles
+            big.unitcell_lengths, big.unitcell_angles = L, A
+        if mode == "fancy":
+            return big[np.arange(0, 2 * nf, 2)]
+        return big.slice(slice(0, 2 * nf, 2), copy=(mode == "stride"))
+    if mode == "atom_slice":
+        extra = int(rng.integers(1, 6))
+        na = t.n_atoms
+        perm_keep = np.sort(rng.choice(na + extra, na, replace=False))
+        top = simple_topology(na + extra)
+        xyz = rng.normal(size=(nf, na + extra, 3)).astype(np.float32)
+        xyz[:, perm_keep] = t.xyz
+        big = md.Trajectory(xyz, top)
+        if t.unitcell_lengths is not None:
+            big.unitcell_lengths, big.unitcell_angles = t.unitcell_lengths.copy(), t.unitcell_angles.copy()
+        return big.atom_slice(perm_keep)
+    if mode == "join":
+        if nf < 2:
+            return t.slice(range(nf), copy=True)
+        k = int(rng.integers(1, nf))
+        return t[:k].join(t[k:])
+    if mode == "xyz64":
+        t2 = t.slice(range(nf), copy=True)
+        t2.xyz = t.xyz.astype(np.float64)
+        return t2
+    if mode == "vectors":
+        t2 = md.Trajectory(t.xyz.copy(), t.topology)
+        if t.unitcell_lengths is not None:
+            t2.unitcell_vectors = t.unitcell_vectors.astype(np.float64 if rng.random() < 0.5 else np.float32)
+        return t2
+    raise ValueError(mode)
+
+
+def perframe_cells(rng, kind, nf, mode, one_cell=None):
+    """nf cells (lengths, angles) that vary along the trajectory.  mode: 'all' every frame its own cell of the class;
+    'one-field' a single length or angle drifts, everything else bit-identical; 'class-change' rectangular frames first
+    and skewed ones later (or a skewed run interrupted by rectangular frames); 'late' constant cell except the last frames;
+    'alternate' two cells alternating."""
+    one_cell = one_cell or (lambda: random_cell(rng, kind))
+    if mode == "all":
+        return [one_cell() for _ in range(nf)]
+    if mode == "one-field":
+        l0, a0 = one_cell()
+        which = int(rng.integers(0, 6))
+        if which >= 3 and a0[which - 3] == 90.0:
+            which -= 3
+        out = []
+        for f in range(nf):
+            l, a = l0.copy(), a0.copy()
+            g = f % 23  # bounded drift, also for long trajectories
+            if which < 3:
+                l[which] = l0[which] * (1 + 0.02 * g)
+            else:
+                cand = a0.copy()
+                cand[which - 3] = a0[which - 3] + (0.3 * g if a0[which - 3] < 90 else -0.3 * g)
+                a = cand if cell_valid(cand) else a0.copy()
+            out.append((l, a))
+        return out
+    if mode == "class-change":
+        k = int(rng.integers(1, max(2, nf)))
+        first_rect = rng.random() < 0.7
+        out = []
+        for f in range(nf):
+            rect = (f < k) == first_rect
+            out.append(random_cell(rng, "ortho") if rect else one_cell())
+        return out
+    if mode == "late":
+        c0 = one_cell()
+        k = max(1, nf - int(rng.integers(1, 4)))
+        return [c0 if f < k else one_cell() for f in range(nf)]
+    if mode == "alternate":
+        c0, c1 = one_cell(), one_cell()
+        return [c0 if f % 2 == 0 else c1 for f in range(nf)]
+    raise ValueError(mode)
+
+
+PF_MODES = ["all", "one-field", "class-change", "late", "alternate"]
+SIMD_COUNTS = [1, 2, 3, 4, 5, 6, 7, 8, 9, 15, 16, 17, 31, 32, 33, 63, 64, 65]
+
+
+def rebuild_topology(top):
+    """(appended in the widening round) a NEW Topology with the same chains, residues (name, resSeq, segment_id), atoms
+    (name, element, serial) and bonds (type, order) as `top`, built through the public construction API only: nothing
+    an implementation may have remembered on the `top` object (or keyed on its identity) is carried over."""
+    import mdtraj as md
+    new = md.Topology()
+    atom_map = {}
+    for chain in top.chains:
+        try:
+            c = new.add_chain(chain.chain_id)
+        except TypeError:
+            c = new.add_chain()
+        for res in chain.residues:
+            r = new.add_residue(res.name, c, resSeq=res.resSeq, segment_id=res.segment_id)
+            for a in res.atoms:
+                atom_map[a.index] = new.add_atom(a.name, a.element, r, serial=a.serial)
+    for b in top.bonds:
+        new.add_bond(atom_map[b[0].index], atom_map[b[1].index], type=getattr(b, "type", None), order=getattr(b, "order", None))
+    return new
